@@ -167,6 +167,35 @@ def closed_events(ctx):
     return ev
 
 
+def run_povm(ctx):
+    """tetrahedron POVM: single-qubit elements against the exact vertices, multi-qubit elements as ordered tensor products"""
+    import numqi
+    r = tlc.run('catalogue/MC_POVM.tla', dump=True, timeout=600)
+    ctx.add_model('MC_POVM', r)
+    verts = {}
+    for st in tlc.parse_dump(r):
+        verts[st['k']] = [rf(t[0]) * math.sqrt(t[1]) for t in st['vert']]
+    sig = [np.eye(2), np.array([[0, 1], [1, 0]]), np.array([[0, -1j], [1j, 0]]), np.array([[1, 0], [0, -1]])]
+    E1 = [(sig[0] + sum(verts[k][i] * sig[i + 1] for i in range(3))) / 4 for k in (1, 2, 3, 4)]
+    try:
+        got = numqi.utils.get_tetrahedron_POVM(1)
+        ctx.case(('povm', 1))
+        if got.shape != (4, 2, 2) or max(np.abs(got[k] - E1[k]).max() for k in range(4)) > 1e-12:
+            ctx.violation('C18:get_tetrahedron_POVM:elements', 'single-qubit elements differ from (I + n_k.sigma)/4 at the tetrahedron vertices', None)
+        for nq in (2, 3):
+            got = numqi.utils.get_tetrahedron_POVM(nq)
+            ctx.case(('povm', nq))
+            want = E1
+            for _ in range(nq - 1):
+                want = [np.kron(a, b) for a in want for b in E1]
+            if got.shape != (4 ** nq, 2 ** nq, 2 ** nq) or max(np.abs(g - w).max() for g, w in zip(got, want)) > 1e-12:
+                ctx.violation('C18:get_tetrahedron_POVM:tensor-order', '%d-qubit elements are not the ordered tensor products of the single-qubit elements' % nq, dict(num_qubit=nq))
+            if np.abs(got.sum(axis=0) - np.eye(2 ** nq)).max() > 1e-12:
+                ctx.violation('C18:get_tetrahedron_POVM:resolution', 'elements do not resolve the identity', dict(num_qubit=nq))
+    except Exception as ex:
+        ctx.violation('C18:exception:get_tetrahedron_POVM', type(ex).__name__ + ': ' + str(ex)[:160], None)
+
+
 def run(ctx):
     import numqi
     quick = ctx.tier == 'quick'
@@ -174,13 +203,14 @@ def run(ctx):
                 'UPB kinds whose vectors are single-radical Gaussian-integer vectors validated by TLC (orthonormal product set, rank D-|UPB|) and their BES compared with the exact complementary projector; '
                 'closed-form REE/EOF/GME of Werner/isotropic states: exact zero on the separable range incl. the end point; distinct by (constructor, arguments)' % (3 if quick else 4, 4 if quick else 5))
     ctx.assumptions = ['TLC/SANY correct', 'tolerance 1e-12 on constructor entries']
-    ctx.not_covered = ['UPB kinds with nested radicals or roots of unity (listed in evidence)', 'tetrahedron POVM and Chebyshev bases', 'agreement of the closed forms with the generic routines on the entangled range',
+    ctx.not_covered = ['UPB kinds with nested radicals or roots of unity (listed in evidence)', 'Chebyshev measurement bases (cosines of irrational multiples of pi)', 'agreement of the closed forms with the generic routines on the entangled range',
                        'Wtype / Dicke constructors (Dicke is covered by C17)']
     r = tlc.run('catalogue/MC_States.tla', 'catalogue/MC_States_%s.cfg' % ('q' if quick else 't'), dump=True, timeout=3000)
     ctx.add_model('MC_States', r)
     states = list(tlc.parse_dump(r))
     replay_states(ctx, states)
     ctx.traces += len(states)
+    run_povm(ctx)
     ev = upb_events(ctx) + closed_events(ctx)
     acc, rej, results = tlc.validate_events('catalogue/Trace_Catalogue.tla', 'catalogue/Trace_Catalogue.cfg', ev, shards=8)
     for r in results:
